@@ -76,8 +76,8 @@ struct EventLog {
 class Chooser {
 public:
     Chooser() : rng(1), replay(false), pos(0), steps(0) {}
-    void start_record(uint64_t seed) { rng.reseed(seed); replay = false; trace.clear(); out.clear(); pos = 0; steps = 0; log = EventLog(); }
-    void start_replay(const std::vector<Choice> &t) { replay = true; trace = t; pos = 0; steps = 0; out.clear(); log = EventLog(); }
+    void start_record(uint64_t seed) { trace.reserve(8192); rng.reseed(seed); replay = false; trace.clear(); out.clear(); pos = 0; steps = 0; log = EventLog(); }
+    void start_replay(const std::vector<Choice> &t) { out.reserve(8192); replay = true; trace = t; pos = 0; steps = 0; out.clear(); log = EventLog(); }
 
     // choose a value in [0, n); in record mode value 0 has probability (1000-bias)/1000 when
     // bias_nonzero_per_mille is given, otherwise uniform.
